@@ -7,7 +7,7 @@ n = len(ids)
 missed_first = [i for i in ids if metas[i]['caught_by'].startswith(('MISSED', 'HARNESS-ERROR')) or not metas[i]['caught']]
 notcaught = [i for i in ids if not metas[i]['caught']]
 out = ["# Seeded changes from independent sub-agents", "",
- "Each directory: patch.diff, demo.py, README.md (sub-agent), meta.json (mine). %d changes in ten rounds (a-j), all confirmed in" % n,
+ "Each directory: patch.diff, demo.py, README.md (sub-agent), meta.json (mine). %d changes in eleven rounds (a-k), all confirmed in" % n,
  "scratch worktrees (demo passes clean / fails with the patch, full suite 34 passed).",
  "%d were caught by the checks as they stood when the change arrived; %d were not (missed, or a correct refusal to report a non-replayable" % (n - len(missed_first), len(missed_first)),
  "failure); %d of those led to a wider workload or a new invariant and are caught now; %d (%s) are documented misses: C06-c-m1 only makes the open" % (len(missed_first) - len(notcaught), len(notcaught), ', '.join(notcaught)),
